@@ -35,8 +35,8 @@ import warnings
 from collections.abc import Mapping, Sequence
 
 from pywbem import CIMInstance, CIMInstanceName, CIMClass, CIMClassName, \
-    CIMParameter, CIMError, CIM_ERR_NOT_FOUND, CIM_ERR_INVALID_PARAMETER, \
-    CIM_ERR_INVALID_CLASS, CIM_ERR_METHOD_NOT_FOUND, cimtype, \
+    CIMParameter, CIMProperty, CIMError, CIM_ERR_NOT_FOUND, \
+    CIM_ERR_INVALID_PARAMETER, CIM_ERR_INVALID_CLASS, CIM_ERR_METHOD_NOT_FOUND, cimtype, \
     ToleratedSchemaIssueWarning
 from pywbem._utils import _format
 from pywbem._nocasedict import NocaseDict
@@ -365,9 +365,18 @@ class ProviderDispatcher(BaseProvider):
             # ModifiedInstance.
             for pn in property_list:
                 if pn not in modified_instance:
+                    cl_prop = creation_class.properties[pn]
+                    if cl_prop.qualifiers.get('key', False):
+                        # Key properties cannot be modified; there is no new
+                        # value, so the key property is left unchanged.
+                        continue
                     # If the property in the class does not have a default
-                    # value, it is None.
-                    modified_instance[pn] = creation_class.properties[pn].value
+                    # value, it is None (which needs the type to be specified).
+                    modified_instance.properties[pn] = CIMProperty(
+                        cl_prop.name, cl_prop.value, type=cl_prop.type,
+                        is_array=cl_prop.is_array,
+                        reference_class=cl_prop.reference_class,
+                        embedded_object=cl_prop.embedded_object)
 
             # Remove properties from modified_instance that are not in
             # PropertyList.
